@@ -1,5 +1,6 @@
 """C02 Theta set operations (DESIGN.md section 5 C02): structural clauses."""
 import theta_rules as T
+import cowrite
 
 
 def run(facts, tier):
@@ -11,6 +12,7 @@ def run(facts, tier):
         ("pivot agreement", T.pivots, 2, "union result trimming: pivot index == theta index == retained count"),
         ("seed checks", T.seed_checks, 4, "seed hash mismatch throws before entries of an input are used"),
         ("builder/reset", T.builder_reset, 2, "union reset re-reads theta after the table reset"),
+        ("couplings", lambda fa: cowrite.obligations(fa, ['theta_union_base']), 2, "fields that every mutator updates together (counters, extremes, cached values) are still updated together"),
     ):
         o = f(facts)
         obs += o
